@@ -33,7 +33,7 @@ LEVEL_TEXT = ('Theorems for every grid, layer configuration, cache state and req
 LEVEL_NOTE = ('Trusted: Coq kernel; hand-written model Limits.v (+Grid.v); the correspondence harness. Not modelled: '
               'bulk_meta_tiles, rescale_tiles, coverages / authorization limits, reprojection (requests are in the '
               'grid SRS), seeding. IEEE rounding not modelled (exact lattice: bit-exact; realistic grids: 1e-6 tolerance on bboxes). '
-              'WMTS GetFeatureInfo does not compare FORMAT with the layer format (pinned by the test-suite of mapproxy: documented, _refuted theorem); dimension values are validated as for GetTile.')
+              'The EXCEPTIONS parameter is sent only with requests over the pixel limit (their refusal must be the XML document whatever it asks for). WMTS GetFeatureInfo does not compare FORMAT with the layer format (pinned by the test-suite of mapproxy: documented, _refuted theorem); dimension values are validated as for GetTile.')
 DESIGN_REF = 'DESIGN.md section 5, C16'
 RULE = ('case = (layer configuration incl. grid, cache state, service, request); non-trivial = address on / next to a matrix '
         'boundary or of huge magnitude, non-numeric component, wrong format / dimension value, or a map request within +-1 of '
@@ -195,7 +195,7 @@ REAL_GRIDS = [
 
 
 class App(object):
-    def __init__(self, ctx, specs, max_pixels, srs_extent=None, info_formats=True):
+    def __init__(self, ctx, specs, max_pixels, srs_extent=None, info_formats=True, multi=None):
         """specs: list of (grid name, grid yaml dict, layer options, skip_first, skip_odd).
         srs_extent: explicit bbox of services.wms.bbox_srs for EPSG:3857 (integers) or None."""
         import yaml
@@ -246,6 +246,19 @@ class App(object):
             if opts['dims']:
                 lyr['dimensions'] = dict((k, {'values': v[0], 'default': v[1]}) for k, v in opts['dims'].items())
             conf['layers'].append(lyr)
+        # a cache with two grids of the same SRS (multi = (first grid name, second grid name, options)): WMS GetMap is
+        # served by the CacheMapLayer of the LAST grid of that SRS (SRSConditional.srs_map); every grid of a cache must
+        # carry the configured max_tile_limit
+        if multi is not None:
+            ga, gb, mo = multi
+            cache = {'grids': [ga, gb], 'sources': ['up'], 'format': 'image/png', 'meta_size': list(mo['meta']),
+                     'meta_buffer': int(mo.get('buffer', 0)), 'cache': {'type': 'file'}}
+            if mo['max_tiles'] is not None:
+                cache['max_tile_limit'] = mo['max_tiles']
+            if mo.get('minimize'):
+                cache['minimize_meta_requests'] = True
+            conf['caches']['c_multi'] = cache
+            conf['layers'].append({'name': 'l_multi', 'title': 'm', 'sources': ['c_multi']})
         # a WMS layer backed directly by the source (no cache): ignores tiled=true, only the pixel limit bounds it
         conf['layers'].append({'name': 'l_direct', 'title': 'd', 'sources': ['up']})
         path = os.path.join(self.tmp, 'mapproxy.yaml')
@@ -270,6 +283,26 @@ class App(object):
             li.stored = set()      # file locations written so far
             li.fresh = True
             self.layers.append(li)
+        self.multi_layer = None
+        if multi is not None:
+            ga, gb, mo = multi
+            gspec = [s_[1] for s_ in specs if s_[0] == gb][0]
+            li = LayerInfo()
+            li.app = self
+            li.name = 'l_multi'
+            li.gname = gb
+            li.spec = dict(gspec, second_grid_of_cache_with_first_grid=ga)
+            li.opts = mo
+            li.grid = cfg.grids[gb].tile_grid()
+            li.exact = True
+            li.gc = GridCase('G_multi', li.grid, extra_den=8)
+            li.tol = 0
+            li.skip_first, li.skip_odd = False, False
+            li.limit = mo['max_tiles'] if mo['max_tiles'] is not None else 500
+            li.stored = set()
+            li.fresh = True
+            li.wmts_ok = False
+            self.multi_layer = li
 
     def layer_term(self, li):
         o = li.opts
@@ -609,8 +642,14 @@ def gen_tile_requests(ctx, li, count):
             q[rng.choice(['x', 'y', 'z'])] = rng.choice(ODD_COMPONENTS)
         elif r < 0.13 and svc in ('WmtsKvp', 'WmtsKvpFI'):
             # fractional column / row next to an otherwise plausible address: int() refuses them, nothing may be truncated
+            # (the rest of the address is made valid so that a truncating parser would serve the tile)
+            zz = rng.randrange(0, nlev)
+            nx2, ny2 = g.grid_sizes[internal_level(li, svc, zz)]
+            q['z'], q['x'], q['y'] = str(zz), str(rng.randrange(0, nx2)), str(rng.randrange(0, ny2))
             k = rng.choice(['x', 'y'])
             q[k] = rng.choice(['-0.5', '-0.999', '-1e-9', '0.0', q[k] + '.0', q[k] + '.5', '0.9'])
+            out.append(q)                    # no further perturbation: everything else about the request is valid
+            continue
         r = rng.random()
         if r < 0.12:
             q['fmt'] = rng.choice(['jpeg', 'jpeg', 'gif', 'PNG', 'png8', 'tiff', 'mixed', 'exe',
@@ -737,8 +776,22 @@ def gen_map_requests(ctx, li, app, count):
                 w, h = tw, th
         if not all((Fraction(v) * 8).denominator == 1 for v in b) or not (b[0] < b[2] and b[1] < b[3]):
             continue
-        out.append({'bbox': [Fraction(v) for v in b], 'w': int(w), 'h': int(h), 'fmt': fmt, 'tiled': tiled, 'kind': kind})
+        m_ = {'bbox': [Fraction(v) for v in b], 'w': int(w), 'h': int(h), 'fmt': fmt, 'tiled': tiled, 'kind': kind}
+        over_limit_exceptions(rng, app, m_)
+        out.append(m_)
     return out
+
+
+EXCEPTION_FORMATS = ['application/vnd.ogc.se_blank', 'blank', 'BLANK', 'application/vnd.ogc.se_inimage', 'inimage',
+                     'application/vnd.ogc.se_xml']
+
+
+def over_limit_exceptions(rng, app, m):
+    """a request over the pixel limit may ask for blank / in-image exceptions: the refusal must stay a service exception
+    document (prevent_image_exception), never an image of the requested size.  Only over-limit requests carry the
+    parameter (for other refusals a blank / in-image answer is the error form WMS defines)."""
+    if app.max_pixels and m['w'] * m['h'] > app.max_pixels[0] * app.max_pixels[1] and rng.random() < 0.6:
+        m['exceptions'] = rng.choice(EXCEPTION_FORMATS)
 
 
 def map_url(li, m):
@@ -747,6 +800,8 @@ def map_url(li, m):
          ('format', 'image/' + m['fmt'])]
     if m['tiled']:
         p.append(('tiled', 'true'))
+    if m.get('exceptions'):
+        p.append(('exceptions', m['exceptions']))
     return '/service?' + '&'.join('%s=%s' % (k, quote(v, safe=',')) for k, v in p)
 
 
@@ -940,7 +995,9 @@ def gen_direct_requests(ctx, app, count):
         b = [Fraction(x0), Fraction(y0), x0 + w * r_, y0 + h * r_]
         if not all((v * 8).denominator == 1 for v in b):
             continue
-        out.append({'bbox': b, 'w': int(w), 'h': int(h), 'fmt': 'png', 'tiled': rng.random() < 0.5, 'kind': 'direct'})
+        m_ = {'bbox': b, 'w': int(w), 'h': int(h), 'fmt': 'png', 'tiled': rng.random() < 0.5, 'kind': 'direct'}
+        over_limit_exceptions(rng, app, m_)
+        out.append(m_)
     return out
 
 
@@ -1000,10 +1057,23 @@ def run(ctx):
                      'dims': dict((k, (v[0], v[1])) for k, v in opts.get('dimensions', {}).items()),
                      'queryable': opts.get('queryable', True), 'mixed': opts.get('mixed', False),
                      'minimize': opts.get('minimize', False), 'buffer': opts.get('meta_buffer', 0), 'format': 'png'}
-                app = App(ctx, [('gc', doc['grid'], o, doc.get('skip_first', False), doc.get('skip_odd', False))],
-                          doc.get('max_output_pixels'), doc.get('bbox_srs_extent'), doc.get('featureinfo_formats', True))
+                cspecs = [('gc', doc['grid'], o, doc.get('skip_first', False), doc.get('skip_odd', False))]
+                cmulti = None
+                if doc.get('first_grid_of_multi_cache'):
+                    # `grid` is the second grid of a two-grid cache whose first grid is this one
+                    cspecs.insert(0, ('ga', doc['first_grid_of_multi_cache'], dict(o), False, False))
+                    cmulti = ('ga', 'gc', dict(o, dims={}, mixed=False, queryable=False))
+                app = App(ctx, cspecs, doc.get('max_output_pixels'), doc.get('bbox_srs_extent'), doc.get('featureinfo_formats', True),
+                          multi=cmulti)
                 prepare(app, col, seq)
-                li = app.layers[0]
+                li = app.layers[-1]
+                for m in doc.get('multi_map_requests', []):
+                    m = dict(m)
+                    m['bbox'] = [Fraction(str(v)) for v in m['bbox']]
+                    m.setdefault('fmt', 'png')
+                    m.setdefault('tiled', False)
+                    m.setdefault('kind', 'corpus-multi')
+                    process_map(ctx, col, app, rec, app.multi_layer, m)
                 for q in doc.get('tile_requests', []):
                     q = dict(q)
                     q.setdefault('layer', li.name)
@@ -1045,8 +1115,18 @@ def run(ctx):
                               max(b0[2], b1[2]) - rng.randrange(-200, 900), max(b0[3], b1[3]) - rng.randrange(-200, 900)]
                 if not (srs_extent[0] < srs_extent[2] and srs_extent[1] < srs_extent[3]):
                     srs_extent = [min(b0[0], b1[0]), min(b0[1], b1[1]), max(b0[2], b1[2]), max(b0[3], b1[3])]
-            app = App(ctx, specs, maxpix, srs_extent, info_formats=(a != 1 and rng.random() < 0.7))
+            # a cache with two grids of the same SRS: WMS is served from the second one
+            exact_names = [s_[0] for s_ in specs if 'bbox' in s_[1]]
+            ga, gb = rng.sample(exact_names, 2)
+            mo = layer_opts(rng)
+            mo.update({'dims': {}, 'mixed': False, 'queryable': False, 'max_tiles': rng.choice([1, 2, 4, 6, 9])})
+            gbs = [s_[1] for s_ in specs if s_[0] == gb][0]
+            if mo['buffer'] and (gbs['bbox'][2] - gbs['bbox'][0] < gbs['res'][0] or gbs['bbox'][3] - gbs['bbox'][1] < gbs['res'][0]):
+                mo['buffer'] = 0
+            app = App(ctx, specs, maxpix, srs_extent, info_formats=(a != 1 and rng.random() < 0.7), multi=(ga, gb, mo))
             prepare(app, col, seq)
+            for m in gen_map_requests(ctx, app.multi_layer, app, n_map // 2):
+                process_map(ctx, col, app, rec, app.multi_layer, m)
             di = DirectInfo()
             for m in gen_direct_requests(ctx, app, ctx.n(40, 80)):
                 process_direct(ctx, col, app, rec, di, m)
@@ -1077,7 +1157,7 @@ def run(ctx):
 
 def prepare(app, col, seq):
     """name the grids / layers of an application for the Gallina case files and find out what WMTS offers."""
-    for li in app.layers:
+    for li in app.layers + ([app.multi_layer] if getattr(app, 'multi_layer', None) else []):
         seq[0] += 1
         li.gc.name = 'G%d' % seq[0]
         li.lname = 'L%d' % seq[0]
